@@ -1,4 +1,5 @@
 import MqttVerif.Conn.Lemmas.PidsStore
+import MqttVerif.Conn.Lemmas.Pend9
 /-!
 # C08 — packet identifiers: unique while in use, released exactly once, never leaked
 
@@ -725,5 +726,491 @@ example : 1 ∈ W.sB.suback ∧ isUsed W.sB 1 = true ∧ W.sB.needStore = true :
 example : PidInv (step W.cfgC W.sB .acquire).s ∧ simpleOp (step W.cfgC W.sB .acquire).s (.release 3) = true ∧
     LegalOp (step W.cfgC W.sB .acquire).s (.release 3) :=
   ⟨by decide, by decide, by show ¬ owned _ 3; decide⟩
+
+
+/-! ## 7. the driver monitor `C08 completion_not_released` is a theorem of the model
+
+The driver (`Driver/ConnDrv.lean`, `monitorCall`) keeps a ghost `pend : List (Nat × Nat)` of the
+outbound exchanges of the running connection — `(id, type nibble of the awaited acknowledgement)` —
+and reports `VIOL sig=C08 completion_not_released@<site>` when an awaited PUBACK / PUBREC / PUBCOMP
+is not delivered, or its identifier not released.  Below: the ghost update as Lean functions
+(`C08.pendReset`, `C08.pendStep`: `Conn/Lemmas/Pend.lean`, verbatim the driver's code), the
+relational invariant `PendAgree` — part of `C08.PendInv` —, its preservation by every call under the
+contract `C08.PendLegal` (`C08_pend_step`, `C08_pend_run`), and the monitor's claim
+(`C08_completion_released`, `C08_monitor_completion_sound`, `C08_completion_released_run`). -/
+
+/-- the ghost the monitor reads (`pend0`): emptied by `closed`, and by a call whose events — the
+    whole list, judged before folding — start a new session or a new connection -/
+abbrev C08.pendReset (op : Op) (evs : List Ev) (pend : List (Nat × Nat)) : List (Nat × Nat) := Pend.pendReset op evs pend
+/-- the fold of the call's events over the ghost (`.send` PUBLISH QoS 1 → `(id,4)`, QoS 2 → `(id,5)`,
+    PUBREL → `(id,7)`, each replacing older entries of `id`; a delivered PUBACK / PUBREC / PUBCOMP and
+    `NotifyPacketIdReleased` remove the entries of the id) -/
+abbrev C08.pendStep (pend0 : List (Nat × Nat)) (evs : List Ev) : List (Nat × Nat) := Pend.pendStep pend0 evs
+/-- the ghost after the call -/
+abbrev C08.pendNext (op : Op) (evs : List Ev) (pend : List (Nat × Nat)) : List (Nat × Nat) :=
+  C08.pendStep (C08.pendReset op evs pend) evs
+/-- the ghost along a run -/
+abbrev C08.pendRun (cfg : Cfg) (s : St) (pend : List (Nat × Nat)) (ops : List Op) : List (Nat × Nat) :=
+  Pend.pendRun cfg s pend ops
+
+/-- **the relational invariant**: a ghost entry `(id, 4 / 5 / 7)` is awaited by the model — `id` is in
+    `pid_puback` / `pid_pubrec` / `pid_pubcomp` -/
+abbrev PendAgree (s : St) (pend : List (Nat × Nat)) : Prop := Pend.PendAgree s pend
+
+/-- the inductive invariant: `PendAgree`; every stored PUBLISH / PUBREL has its key as identifier, the
+    connection's version, pairwise distinct keys, and is awaited (`Pend.StoreOk` — needed because
+    `send_stored` re-creates ghost entries from the store); the ghost is empty while `connecting` -/
+abbrev C08.PendInv (s : St) (pend : List (Nat × Nat)) : Prop := Pend.PInv s pend
+
+/-- the contract (`Pend.Legal`): `send p` — `p.ver ≠ 0`; `recv` — `Pend.ParseOk parse` (a packet parsed
+    for version `v` has `ver = v`, and its kind is the frame's type nibble) and, between connections,
+    `closed` was called (ghost empty) or the last peer's Maximum Packet Size admits a 5-byte CONNACK;
+    `erase id` — `id` is in use or has no ghost entry; `restorePackets` — PUBLISH / PUBREL packets have
+    the connection's determined version.  NOTHING is required of `release` (releasing a running
+    exchange's identifier only removes ghost entries), of identifier reuse, of `closed`, timers … -/
+abbrev C08.PendLegal (s : St) (pend : List (Nat × Nat)) (op : Op) : Prop := Pend.Legal s pend op
+
+theorem C08.pendAgree_def (s : St) (pend : List (Nat × Nat)) :
+    PendAgree s pend ↔ ∀ id, ((id, 4) ∈ pend → id ∈ s.puback) ∧ ((id, 5) ∈ pend → id ∈ s.pubrec) ∧
+      ((id, 7) ∈ pend → id ∈ s.pubcomp) := Iff.rfl
+
+/-- justifies `VIOL sig=C08 completion_not_released@<site>` (ghost bookkeeping): initially -/
+theorem C08_pend_init (cfg : Cfg) (ver : Nat) : C08.PendInv (St.init cfg ver) [] := Pend.PInv_init cfg ver
+
+/-- justifies `VIOL sig=C08 completion_not_released@<site>` (ghost bookkeeping).  **Every** call keeps
+    the invariant, the ghost being updated exactly as the driver does: reset judged on the whole
+    event list of the call, then the fold.  In particular (a) an oversize stored packet dropped by
+    `send_stored` whose identifier is not in use (no `NotifyPacketIdReleased`) leaves no ghost entry:
+    the loop is entered with an empty ghost and distinct keys; (b) `notify_closed`, (c) every session
+    reset (`clearStoreRelated`, incl. CONNACK Session Expiry Interval 0: a delivered successful CONNACK
+    resets the ghost whatever its properties) happen in calls in which the driver empties the ghost;
+    (d) `pubRefuseCleanup` deletes wait-set entries only together with `NotifyPacketIdReleased`;
+    `erase_stored_publish` needs the contract; (e),(f) a PUBLISH / PUBREL is requested for sending
+    only after its identifier entered the wait set, and only while connected. -/
+theorem C08_pend_step {cfg : Cfg} {s : St} {pend : List (Nat × Nat)} (h : C08.PendInv s pend) (op : Op)
+    (hl : C08.PendLegal s pend op) :
+    C08.PendInv (step cfg s op).s (C08.pendNext op (step cfg s op).ev pend) := Pend.PInv_step h op hl
+
+/-- justifies `VIOL sig=C08 completion_not_released@<site>`: along every run from a fresh connection
+    object whose calls are within the contract, ghost `[]` initially -/
+theorem C08_pend_run {cfg : Cfg} {ver : Nat} (ops : List Op)
+    (hl : Pend.LegalRun cfg (St.init cfg ver) [] ops) :
+    C08.PendInv (run cfg (St.init cfg ver) ops) (C08.pendRun cfg (St.init cfg ver) [] ops) :=
+  Pend.PInv_run ops (Pend.PInv_init cfg ver) hl
+
+/-- **the claim of `VIOL sig=C08 completion_not_released@<site>`**.  A `recv` that completes a frame
+    `(fh, data)` not larger than the announced maximum, on a connection of determined version, whose
+    parsed packet `p` is a PUBACK / PUBREC / PUBCOMP (kind = the frame's type nibble) carrying
+    identifier `id`, with `(id, nibble)` in the ghost the monitor reads (`pend0`): the events contain
+    `NotifyPacketReceived p`; and, for PUBACK, PUBCOMP and a v5.0 PUBREC with reason code ≥ 0x80, if
+    `id` is in use, `NotifyPacketIdReleased id`.
+    Not needed: status `connected` (the monitor's `stBefore = "C"`), `p.ver = s.ver`.
+    `hpid` is what lets the monitor test `q.pid = some id`; `isUsed s id` follows from `PidInv`
+    (`C08_completion_released_of_PidInv`) — it FAILS after the application released the identifier
+    of a running exchange (`example` below): the ownership contract `LegalOp`. -/
+theorem C08_completion_released {cfg : Cfg} {s : St} {pend : List (Nat × Nat)} {inp : List Nat}
+    {parse : Nat → Nat → List Nat → Except Nat Pkt} {pb : Framing.PB} {fh : Nat} {data rest : List Nat}
+    {p : Pkt} {id : Nat}
+    (h : PendAgree s pend)
+    (hf : Framing.feed s.pb inp = (pb, some (.complete fh data), rest))
+    (hsz : totalSize data.length ≤ s.mpsRecv) (hv0 : s.ver ≠ 0)
+    (hp : parse s.ver fh data = .ok p) (hnib : p.kind.nibble = fh / 16)
+    (hk : p.kind.nibble = 4 ∨ p.kind.nibble = 5 ∨ p.kind.nibble = 7) (hpid : p.pid = some id)
+    (hpend : (id, p.kind.nibble) ∈ C08.pendReset (.recv inp parse) (step cfg s (.recv inp parse)).ev pend) :
+    Ev.recv p ∈ (step cfg s (.recv inp parse)).ev ∧
+    ((p.kind.nibble = 4 ∨ p.kind.nibble = 7 ∨ (p.kind.nibble = 5 ∧ Mon.isErrorRc p.rc = true ∧ p.ver ≠ 4)) →
+      isUsed s id = true → id ∈ Mon.releasedIds (step cfg s (.recv inp parse)).ev) := by
+  have hin : (id, p.kind.nibble) ∈ pend := by
+    rcases Pend.pendReset_cases (.recv inp parse) (step cfg s (.recv inp parse)).ev pend with e | e
+    · rw [C08.pendReset, e] at hpend; cases hpend
+    · rw [C08.pendReset, e] at hpend; exact hpend
+  have hid : p.pid.getD 0 = id := by simp [hpid]
+  have ht : fh / 16 = 4 ∨ fh / 16 = 5 ∨ fh / 16 = 7 := by rw [← hnib]; exact hk
+  rw [Pend.step_recv_ack hf hsz hv0 ht, hp, ← hnib]
+  rcases hk with hk | hk | hk
+  · rw [hk] at hin ⊢
+    have hm : p.pid.getD 0 ∈ ({ cfg := cfg, s := { s with pb := pb } } : C).s.puback := by rw [hid]; exact (h id).1 hin
+    obtain ⟨d1, d2⟩ := Pend.prPuback_delivers _ p hm
+    exact ⟨d1, fun _ hu => Pend.mem_releasedIds.2 (hid ▸ d2 (by rw [hid]; exact hu))⟩
+  · rw [hk] at hin ⊢
+    have hm : p.pid.getD 0 ∈ ({ cfg := cfg, s := { s with pb := pb } } : C).s.pubrec := by rw [hid]; exact (h id).2.1 hin
+    obtain ⟨d1, d2⟩ := Pend.prPubrec_delivers _ p hm
+    refine ⟨d1, fun hr hu => Pend.mem_releasedIds.2 (hid ▸ d2 ?_ (by rw [hid]; exact hu))⟩
+    rcases hr with hr | hr | ⟨_, hr, hv⟩
+    · omega
+    · omega
+    · intro hs
+      rcases hs with hs | hs | hs
+      · exact hv hs
+      · rw [hs] at hr; cases hr
+      · rw [hs] at hr; simp [Mon.isErrorRc] at hr
+  · rw [hk] at hin ⊢
+    have hm : p.pid.getD 0 ∈ ({ cfg := cfg, s := { s with pb := pb } } : C).s.pubcomp := by rw [hid]; exact (h id).2.2 hin
+    obtain ⟨d1, d2⟩ := Pend.prPubcomp_delivers _ p hm
+    exact ⟨d1, fun _ hu => Pend.mem_releasedIds.2 (hid ▸ d2 (by rw [hid]; exact hu))⟩
+
+/-- the ownership invariant `PidInv` (every identifier of a wait set is in use) supplies `isUsed` -/
+theorem C08_completion_released_of_PidInv {cfg : Cfg} {s : St} {pend : List (Nat × Nat)} {inp : List Nat}
+    {parse : Nat → Nat → List Nat → Except Nat Pkt} {pb : Framing.PB} {fh : Nat} {data rest : List Nat}
+    {p : Pkt} {id : Nat}
+    (h : PendAgree s pend) (hi : PidInv s)
+    (hf : Framing.feed s.pb inp = (pb, some (.complete fh data), rest))
+    (hsz : totalSize data.length ≤ s.mpsRecv) (hv0 : s.ver ≠ 0)
+    (hp : parse s.ver fh data = .ok p) (hnib : p.kind.nibble = fh / 16)
+    (hk : p.kind.nibble = 4 ∨ p.kind.nibble = 5 ∨ p.kind.nibble = 7) (hpid : p.pid = some id)
+    (hpend : (id, p.kind.nibble) ∈ C08.pendReset (.recv inp parse) (step cfg s (.recv inp parse)).ev pend) :
+    Ev.recv p ∈ (step cfg s (.recv inp parse)).ev ∧
+    ((p.kind.nibble = 4 ∨ p.kind.nibble = 7 ∨ (p.kind.nibble = 5 ∧ Mon.isErrorRc p.rc = true ∧ p.ver ≠ 4)) →
+      id ∈ Mon.releasedIds (step cfg s (.recv inp parse)).ev) := by
+  obtain ⟨a, b⟩ := C08_completion_released (cfg := cfg) h hf hsz hv0 hp hnib hk hpid hpend
+  refine ⟨a, fun hr => b hr (hi.1 id ?_)⟩
+  have hin : (id, p.kind.nibble) ∈ pend := by
+    rcases Pend.pendReset_cases (.recv inp parse) (step cfg s (.recv inp parse)).ev pend with e | e
+    · rw [C08.pendReset, e] at hpend; cases hpend
+    · rw [C08.pendReset, e] at hpend; exact hpend
+  simp only [waitIds, List.mem_append]
+  rcases hk with hk | hk | hk <;> rw [hk] at hin
+  · exact .inl (.inl (.inr ((h id).1 hin)))
+  · exact .inl (.inr ((h id).2.1 hin))
+  · exact .inr ((h id).2.2 hin)
+
+/-- the monitor's tests, literally (`deliveredIt`, `mustRelease`, the reported condition) -/
+def C08.deliveredIt (evs : List Ev) (p : Pkt) (id : Nat) : Bool :=
+  evs.any fun (e : Ev) => match e with | .recv q => q.kind = p.kind ∧ q.pid = some id | _ => false
+def C08.mustRelease (p : Pkt) : Prop :=
+  p.kind.nibble = 4 ∨ p.kind.nibble = 7 ∨ (p.kind.nibble = 5 ∧ Mon.isErrorRc p.rc)
+instance (p : Pkt) : Decidable (C08.mustRelease p) := by unfold C08.mustRelease; infer_instance
+def C08.completionViol (evs : List Ev) (p : Pkt) (id : Nat) : Prop :=
+  !C08.deliveredIt evs p id ∨ (C08.mustRelease p ∧ !(Mon.releasedIds evs).contains id)
+instance (evs : List Ev) (p : Pkt) (id : Nat) : Decidable (C08.completionViol evs p id) := by
+  unfold C08.completionViol; infer_instance
+
+/-- **`VIOL sig=C08 completion_not_released@<site>` never fires on the model**: the monitor's
+    condition, literally (`id = p.pid.getD 0`, `nib ∈ {4,5,7}`, `p.ver = ver`, `pend0.contains (id, nib)`,
+    a complete frame within the announced maximum), under `PendAgree`, `p.pid = some id`, `id` in use,
+    and the parser facts `p.kind.nibble = fh / 16`, `p.ver = 4 ∨ p.ver = 5`, and "a v3.1.1 PUBREC has
+    no reason code". -/
+theorem C08_monitor_completion_sound {cfg : Cfg} {s : St} {pend : List (Nat × Nat)} {inp : List Nat}
+    {parse : Nat → Nat → List Nat → Except Nat Pkt} {pb : Framing.PB} {fh : Nat} {data rest : List Nat}
+    {p : Pkt}
+    (h : PendAgree s pend) (hu : isUsed s (p.pid.getD 0) = true)
+    (hf : Framing.feed s.pb inp = (pb, some (.complete fh data), rest))
+    (hsz : totalSize data.length ≤ s.mpsRecv)
+    (hp : parse s.ver fh data = .ok p) (hnib : p.kind.nibble = fh / 16)
+    (hver : p.ver = (step cfg s (.recv inp parse)).s.ver) (hv45 : p.ver = 4 ∨ p.ver = 5)
+    (hrc4 : p.ver = 4 → p.rc = none) (hpid : p.pid.isSome = true)
+    (hk : p.kind.nibble = 4 ∨ p.kind.nibble = 5 ∨ p.kind.nibble = 7)
+    (hpend : (C08.pendReset (.recv inp parse) (step cfg s (.recv inp parse)).ev pend).contains (p.pid.getD 0, p.kind.nibble) = true) :
+    ¬ C08.completionViol (step cfg s (.recv inp parse)).ev p (p.pid.getD 0) := by
+  have hv0 : s.ver ≠ 0 := by
+    intro h0
+    have ht : fh / 16 = 4 ∨ fh / 16 = 5 ∨ fh / 16 = 7 := by rw [← hnib]; exact hk
+    have hcan : canReceive cfg { s with pb := pb } (fh / 16) = true := Pend.canReceive_ack _ _ ht
+    have e : (step cfg s (.recv inp parse)).s.ver = 0 := by
+      have h1 : ¬ fh / 16 = 1 := by omega
+      simp only [step, recv, hf, processRecvPacket, Nat.not_lt.2 hsz, if_false, hcan, Bool.not_true,
+        Bool.false_eq_true, h0, if_true, h1]
+      split <;> rfl
+    rw [e] at hver; omega
+  obtain ⟨id, hid⟩ := Option.isSome_iff_exists.1 hpid
+  have hgd : p.pid.getD 0 = id := by simp [hid]
+  rw [hgd] at hu hpend ⊢
+  have hpend' := List.contains_iff_mem.1 hpend
+  obtain ⟨a, b⟩ := C08_completion_released (cfg := cfg) h hf hsz hv0 hp hnib hk hid hpend'
+  intro hviol
+  rcases hviol with hv | ⟨hm, hv⟩
+  · have : C08.deliveredIt (step cfg s (.recv inp parse)).ev p id = true := by
+      unfold C08.deliveredIt
+      rw [List.any_eq_true]
+      exact ⟨_, a, by simp [hid]⟩
+    rw [this] at hv; cases hv
+  · have hr : id ∈ Mon.releasedIds (step cfg s (.recv inp parse)).ev := by
+      refine b ?_ hu
+      rcases hm with hm | hm | ⟨h5, hrc⟩
+      · exact .inl hm
+      · exact .inr (.inl hm)
+      · refine .inr (.inr ⟨h5, hrc, fun h4 => ?_⟩)
+        rw [hrc4 h4] at hrc; cases hrc
+    rw [List.contains_iff_mem.2 hr] at hv; cases hv
+
+/-- **run-level corollary** of `VIOL sig=C08 completion_not_released@<site>`: after any sequence of
+    calls within the contract on a fresh connection object, with the ghost computed by the driver's
+    rules from `[]`, the claim holds for the next `recv`. -/
+theorem C08_completion_released_run {cfg : Cfg} {ver : Nat} (ops : List Op)
+    (hl : Pend.LegalRun cfg (St.init cfg ver) [] ops)
+    {inp : List Nat} {parse : Nat → Nat → List Nat → Except Nat Pkt} {pb : Framing.PB} {fh : Nat}
+    {data rest : List Nat} {p : Pkt} {id : Nat}
+    (hf : Framing.feed (run cfg (St.init cfg ver) ops).pb inp = (pb, some (.complete fh data), rest))
+    (hsz : totalSize data.length ≤ (run cfg (St.init cfg ver) ops).mpsRecv)
+    (hv0 : (run cfg (St.init cfg ver) ops).ver ≠ 0)
+    (hp : parse (run cfg (St.init cfg ver) ops).ver fh data = .ok p) (hnib : p.kind.nibble = fh / 16)
+    (hk : p.kind.nibble = 4 ∨ p.kind.nibble = 5 ∨ p.kind.nibble = 7) (hpid : p.pid = some id)
+    (hpend : (id, p.kind.nibble) ∈ C08.pendReset (.recv inp parse)
+      (step cfg (run cfg (St.init cfg ver) ops) (.recv inp parse)).ev (C08.pendRun cfg (St.init cfg ver) [] ops)) :
+    Ev.recv p ∈ (step cfg (run cfg (St.init cfg ver) ops) (.recv inp parse)).ev ∧
+    ((p.kind.nibble = 4 ∨ p.kind.nibble = 7 ∨ (p.kind.nibble = 5 ∧ Mon.isErrorRc p.rc = true ∧ p.ver ≠ 4)) →
+      isUsed (run cfg (St.init cfg ver) ops) id = true →
+      id ∈ Mon.releasedIds (step cfg (run cfg (St.init cfg ver) ops) (.recv inp parse)).ev) :=
+  C08_completion_released (C08_pend_run ops hl).agree hf hsz hv0 hp hnib hk hpid hpend
+
+
+/-! ### non-vacuity and necessity of every hypothesis (all `decide`-checked) -/
+namespace W
+/-- a parser satisfying `Pend.ParseOk`: returns `p` for frames of `p`'s type parsed for `p`'s version -/
+def okv (p : Pkt) : Nat → Nat → List Nat → Except Nat Pkt :=
+  fun v fh _ => if v = p.ver ∧ fh / 16 = p.kind.nibble then .ok p else .error eMalformed
+theorem parseOk_okv (p : Pkt) : Pend.ParseOk (okv p) := by
+  intro v fh data q h
+  unfold okv at h
+  split at h
+  · rename_i hc; cases h; exact ⟨hc.1.symm, hc.2.symm⟩
+  · cases h
+theorem parseOk_err (e : Nat) : Pend.ParseOk (fun _ _ _ => .error e) := by
+  intro v fh data q h; cases h
+def pubackB (id : Nat) : List Nat := [0x40, 2, 0, id]
+def pubrecB (id : Nat) : List Nat := [0x50, 2, 0, id]
+def connectBytes : List Nat := [0x10, 7, 0, 4, 77, 81, 84, 84, 5]
+def pubrec (v id : Nat) (rc : Option Nat) : Pkt := { ver := v, kind := .pubrec, pid := some id, size := 4, rc := rc }
+/-- `sB` (connected client, SUBSCRIBE id 1 and QoS 1 PUBLISH id 2 in flight) as a run of legal calls -/
+def opsB : List Op := [.send connect5, .recv connackBytes (okv (connack5 false [])), .acquire,
+  .send sub1, .acquire, .send { pub1 with pid := some 2 }]
+def sB' : St := run cfgC s0 opsB
+def gB : List (Nat × Nat) := Pend.pendRun cfgC s0 [] opsB
+end W
+
+/-- `C08_pend_run`: a run within the contract; its ghost is `[(2, 4)]` and the invariant holds -/
+example : Pend.LegalRun W.cfgC W.s0 [] W.opsB :=
+  ⟨by simp only [Pend.Legal]; decide, ⟨W.parseOk_okv _, by decide⟩, trivial, by simp only [Pend.Legal]; decide, trivial,
+    by simp only [Pend.Legal]; decide, trivial⟩
+example : W.gB = [(2, 4)] ∧ C08.PendInv W.sB' W.gB ∧ W.sB'.puback = [2] ∧ W.sB'.store.length = 1 := by decide
+
+/-- `C08_completion_released` / `C08_monitor_completion_sound`: every hypothesis holds for the PUBACK of
+    identifier 2 in that state, and the conclusion is not vacuous: it is delivered and 2 is released -/
+example :
+    let op : Op := .recv (W.pubackB 2) (W.okv (W.puback 5 2))
+    PendAgree W.sB' W.gB ∧ isUsed W.sB' 2 = true ∧
+    Framing.feed W.sB'.pb (W.pubackB 2) = ({}, some (.complete 0x40 [0, 2]), []) ∧
+    totalSize [0, 2].length ≤ W.sB'.mpsRecv ∧ W.sB'.ver ≠ 0 ∧
+    (W.okv (W.puback 5 2) W.sB'.ver 0x40 [0, 2]).toOption = some (W.puback 5 2) ∧ (W.puback 5 2).kind.nibble = 0x40 / 16 ∧
+    (2, 4) ∈ C08.pendReset op (step W.cfgC W.sB' op).ev W.gB ∧
+    Ev.recv (W.puback 5 2) ∈ (step W.cfgC W.sB' op).ev ∧ Mon.releasedIds (step W.cfgC W.sB' op).ev = [2] ∧
+    ¬ C08.completionViol (step W.cfgC W.sB' op).ev (W.puback 5 2) 2 ∧
+    C08.pendNext op (step W.cfgC W.sB' op).ev W.gB = [] := by decide
+
+
+/-! #### hypotheses of the claim (`C08_completion_released`) -/
+
+/-- `hsz` is needed: the client announced Maximum Packet Size 3; the awaited PUBACK (4 bytes) is
+    answered with `PacketTooLarge` and not delivered, although `(1, 4)` is in the ghost and `PendAgree`
+    holds -/
+example :
+    let s := run W.cfgC W.s0 [.send { W.connect5 with props := [(pSEI, 100), (pMPS, 3)] },
+      .recv W.connackBytes (W.okv (W.connack5 false [])), .acquire, .send W.pub1]
+    let op : Op := .recv (W.pubackB 1) (W.okv (W.puback 5 1))
+    PendAgree s [(1, 4)] ∧ s.ver ≠ 0 ∧ (1, 4) ∈ C08.pendReset op (step W.cfgC s op).ev [(1, 4)] ∧
+    ¬ (totalSize [0, 1].length ≤ s.mpsRecv) ∧ Ev.recv (W.puback 5 1) ∉ (step W.cfgC s op).ev ∧
+    Mon.hasErrorCode (step W.cfgC s op).ev eTooLarge = true := by decide
+
+/-- `hv0` is needed (state not reachable within the contract: with an undetermined version nothing
+    can have been sent): `PendAgree` holds, the PUBACK is refused as malformed -/
+example :
+    let s : St := { St.init W.cfgC 0 with puback := [1] }
+    let op : Op := .recv (W.pubackB 1) (W.okp (W.puback 5 1))
+    PendAgree s [(1, 4)] ∧ (1, 4) ∈ C08.pendReset op (step W.cfgC s op).ev [(1, 4)] ∧
+    (step W.cfgC s op).ev = [.error eMalformed] := by decide
+
+/-- `hnib` is needed: a frame of type 5 (PUBREC) for which the parser hands out a PUBACK goes to the
+    PUBREC handler; `(2, 4)` is in the ghost, nothing is delivered -/
+example :
+    let op : Op := .recv (W.pubrecB 2) (W.okp (W.puback 5 2))
+    PendAgree W.sB' W.gB ∧ (2, 4) ∈ C08.pendReset op (step W.cfgC W.sB' op).ev W.gB ∧
+    (W.puback 5 2).kind.nibble ≠ 0x50 / 16 ∧ Ev.recv (W.puback 5 2) ∉ (step W.cfgC W.sB' op).ev := by decide
+
+/-- `hpid` is needed for the monitor's test `q.pid = some id` (state not reachable: identifier 0 is
+    never awaited): a packet without identifier is looked up as 0 and delivered, yet
+    `deliveredIt` is false -/
+example :
+    let s : St := { W.sB' with puback := [0] }
+    let p : Pkt := { ver := 5, kind := .puback, size := 2 }
+    let op : Op := .recv (W.pubackB 0) (W.okp p)
+    PendAgree s [(0, 4)] ∧ Ev.recv p ∈ (step W.cfgC s op).ev ∧ C08.deliveredIt (step W.cfgC s op).ev p 0 = false := by
+  decide
+
+namespace W
+/-- client, persistent session: QoS 1 PUBLISH id 1 in flight and stored; the APPLICATION RELEASES
+    identifier 1 (allowed by `C08.PendLegal`, forbidden by the ownership contract `LegalOp`); the
+    connection closes and the session is resumed: the PUBLISH is sent again -/
+def opsE : List Op := [.send connect5, .recv connackBytes (okv (connack5 false [])), .acquire, .send pub1,
+  .release 1, .closed, .send connect5, .recv connackBytes (okv (connack5 true []))]
+def sE : St := run cfgC s0 opsE
+def gE : List (Nat × Nat) := Pend.pendRun cfgC s0 [] opsE
+end W
+
+/-- **`isUsed s id` is needed — and this is where the monitor is NOT a theorem of the model under
+    `C08.PendLegal` alone**: after the run `W.opsE` (every call within `C08.PendLegal`; `release 1`
+    violates only `LegalOp`: the identifier is `owned`) the ghost is `[(1, 4)]`, `PendInv` holds, identifier 1 is awaited but
+    free; the PUBACK is delivered, nothing is released, and the monitor's condition holds
+    (`completionViol`).  Under the ownership contract (`PidInv`) it cannot happen:
+    `C08_completion_released_of_PidInv`. -/
+example :
+    let op : Op := .recv (W.pubackB 1) (W.okv (W.puback 5 1))
+    W.gE = [(1, 4)] ∧ C08.PendInv W.sE W.gE ∧ isUsed W.sE 1 = false ∧ ¬ PidInv W.sE ∧
+    owned (run W.cfgC W.s0 (W.opsE.take 4)) 1 ∧
+    Ev.recv (W.puback 5 1) ∈ (step W.cfgC W.sE op).ev ∧ Mon.releasedIds (step W.cfgC W.sE op).ev = [] ∧
+    C08.completionViol (step W.cfgC W.sE op).ev (W.puback 5 1) 1 := by decide
+
+/-- the `p.ver ≠ 4` / "a v3.1.1 PUBREC has no reason code" clause is needed: a v3.1.1 PUBREC to which
+    the parser attaches reason code 0x80 is a success for the model (no release), the monitor's
+    `mustRelease` holds -/
+example :
+    let s := run W.cfgC (St.init W.cfgC 4) [.send { W.connect5 with ver := 4 },
+      .recv W.connackBytes (W.okp { W.connack5 false [] with ver := 4 }), .acquire,
+      .send { ver := 4, kind := .publish, pid := some 1, qos := 2, topic := [97] }]
+    let p := W.pubrec 4 1 (some 0x80)
+    let op : Op := .recv (W.pubrecB 1) (W.okp p)
+    PendAgree s [(1, 5)] ∧ isUsed s 1 = true ∧ C08.mustRelease p ∧
+    Ev.recv p ∈ (step W.cfgC s op).ev ∧ Mon.releasedIds (step W.cfgC s op).ev = [] := by decide
+
+/-- a failing v5.0 PUBREC (reason code 0x80) releases; reason code 0x10 (< 0x80) is "not success" for
+    the model — it releases too — but the monitor does not ask for it -/
+example :
+    let s := run W.cfgC W.s0 [.send W.connect5, .recv W.connackBytes (W.okv (W.connack5 false [])), .acquire,
+      .send (W.pq 2 1)]
+    PendAgree s [(1, 5)] ∧
+    Mon.releasedIds (step W.cfgC s (.recv (W.pubrecB 1) (W.okv (W.pubrec 5 1 (some 0x80))))).ev = [1] ∧
+    Mon.releasedIds (step W.cfgC s (.recv (W.pubrecB 1) (W.okv (W.pubrec 5 1 (some 0x10))))).ev = [1] ∧
+    ¬ C08.mustRelease (W.pubrec 5 1 (some 0x10)) ∧
+    Mon.releasedIds (step W.cfgC s (.recv (W.pubrecB 1) (W.okv (W.pubrec 5 1 none)))).ev = [] := by decide
+
+
+/-- the run `W.opsE` is within the contract `C08.PendLegal` -/
+example : Pend.LegalRun W.cfgC W.s0 [] W.opsE :=
+  ⟨by simp only [Pend.Legal]; decide, ⟨W.parseOk_okv _, by decide⟩, trivial, by simp only [Pend.Legal]; decide, trivial,
+    trivial, by simp only [Pend.Legal]; decide, ⟨W.parseOk_okv _, by decide⟩, trivial⟩
+
+/-! #### clauses of the contract `C08.PendLegal` (`C08_pend_step`) -/
+
+/-- `erase id` — "in use, or no ghost entry" is needed: in the state `W.sE` (reachable within the
+    contract) `erase 1` removes identifier 1 from `pid_puback` without `NotifyPacketIdReleased`
+    (the identifier is not in use): the ghost keeps `(1, 4)`, `PendAgree` breaks, and the next PUBACK
+    of identifier 1 is a protocol error — the monitor fires -/
+example :
+    let s' := (step W.cfgC W.sE (.erase 1)).s
+    let g' := C08.pendNext (.erase 1) (step W.cfgC W.sE (.erase 1)).ev W.gE
+    let op : Op := .recv (W.pubackB 1) (W.okv (W.puback 5 1))
+    C08.PendInv W.sE W.gE ∧ isUsed W.sE 1 = false ∧ (1, 4) ∈ W.gE ∧
+    g' = [(1, 4)] ∧ s'.puback = [] ∧ ¬ PendAgree s' g' ∧
+    Ev.recv (W.puback 5 1) ∉ (step W.cfgC s' op).ev ∧ Mon.hasErrorCode (step W.cfgC s' op).ev eProtocol = true := by
+  decide
+
+/-- `recv` — `ParseOk`, kind: a frame of type 5 for which the parser hands out a packet of kind
+    PUBLISH is processed as a (successful) PUBREC — identifier 1 leaves `pid_pubrec`, nothing is
+    released — but the delivered packet does not remove the ghost entry: `PendAgree` breaks at once.
+    (For PUBACK / PUBCOMP the `NotifyPacketIdReleased` removes the entry as long as the identifier
+    is in use.) -/
+example :
+    let s := run W.cfgC W.s0 [.send W.connect5, .recv W.connackBytes (W.okv (W.connack5 false [])), .acquire,
+      .send (W.pq 2 1)]
+    let p : Pkt := { ver := 5, kind := .publish, pid := some 1, topic := [97] }
+    let op : Op := .recv (W.pubrecB 1) (W.okp p)
+    C08.PendInv s [(1, 5)] ∧ p.ver = s.ver ∧ p.kind.nibble ≠ 0x50 / 16 ∧
+    C08.pendNext op (step W.cfgC s op).ev [(1, 5)] = [(1, 5)] ∧ (step W.cfgC s op).s.pubrec = [] ∧
+    ¬ PendAgree (step W.cfgC s op).s (C08.pendNext op (step W.cfgC s op).ev [(1, 5)]) := by decide
+
+/-- `recv` — `ParseOk`, version: a PUBACK the parser labels v3.1.1 on a v5.0 connection does not erase
+    the stored PUBLISH (`Store::erase` compares versions) while the identifier leaves `pid_puback`;
+    after a close and a resumed session (calls within the contract) the PUBLISH is sent again: the
+    ghost holds `(2, 4)`, the model awaits nothing -/
+example :
+    let p := W.puback 4 2
+    let ops : List Op := [.recv (W.pubackB 2) (W.okp p), .closed, .send W.connect5,
+      .recv W.connackBytes (W.okv (W.connack5 true []))]
+    C08.PendInv W.sB' W.gB ∧ p.kind.nibble = 0x40 / 16 ∧ p.ver ≠ W.sB'.ver ∧
+    C08.pendRun W.cfgC W.sB' W.gB ops = [(2, 4)] ∧ (run W.cfgC W.sB' ops).puback = [] ∧
+    ¬ PendAgree (run W.cfgC W.sB' ops) (C08.pendRun W.cfgC W.sB' W.gB ops) := by decide
+
+namespace W
+def cfgA : Cfg := { role := .any, pw := 2 }
+def pub0 : Pkt := { ver := 0, kind := .publish, pid := some 1, qos := 1, topic := [97] }
+def connectS5 : Pkt := { ver := 5, kind := .connect, size := 20, props := [(pSEI, 100)] }
+def connackS (sp : Bool) : Pkt := { ver := 5, kind := .connack, size := 8, rc := some 0, sp := sp }
+/-- an undetermined connection with offline publishing sends a "version 0" PUBLISH (stored); then a
+    v5.0 client connects twice, the session being resumed both times -/
+def opsZ1 : List Op := [.setFlag .offline true, .acquire, .send pub0]
+def opsZ2 : List Op := [.recv connectBytes (okv connectS5), .send (connackS true),
+  .recv (pubackB 1) (okv (puback 5 1)), .closed, .recv connectBytes (okv connectS5), .send (connackS true)]
+def opsZ : List Op := opsZ1 ++ opsZ2
+end W
+
+/-- the calls after the version-0 `send` are within the contract (so are `setFlag` and `acquire`) -/
+example : Pend.LegalRun W.cfgA (run W.cfgA (St.init W.cfgA 0) W.opsZ1) (C08.pendRun W.cfgA (St.init W.cfgA 0) [] W.opsZ1) W.opsZ2 :=
+  ⟨⟨W.parseOk_okv _, by decide⟩, by simp only [Pend.Legal]; decide, ⟨W.parseOk_okv _, by decide⟩, trivial,
+    ⟨W.parseOk_okv _, by decide⟩, by simp only [Pend.Legal]; decide, trivial⟩
+
+/-- `send` — `p.ver ≠ 0` is needed: every call of `W.opsZ` but the `send` of the version-0 PUBLISH is
+    within the contract; the stored packet is not erased by the v5.0 PUBACK, and the second resume
+    creates the ghost entry `(1, 4)` for an exchange the model completed -/
+example :
+    C08.pendRun W.cfgA (St.init W.cfgA 0) [] W.opsZ = [(1, 4)] ∧ (run W.cfgA (St.init W.cfgA 0) W.opsZ).puback = [] ∧
+    (run W.cfgA (St.init W.cfgA 0) W.opsZ).ver = 5 ∧
+    ¬ PendAgree (run W.cfgA (St.init W.cfgA 0) W.opsZ) (C08.pendRun W.cfgA (St.init W.cfgA 0) [] W.opsZ) := by decide
+
+/-- `restorePackets` — "PUBLISH / PUBREL packets have the connection's version" is needed: a restored
+    v3.1.1 PUBLISH on a v5.0 connection, then two resumed connections with the PUBACK in between -/
+example :
+    let ops : List Op := [.restorePackets [{ W.pq 1 1 with ver := 4 }], .send W.connect5,
+      .recv W.connackBytes (W.okv (W.connack5 true [])), .recv (W.pubackB 1) (W.okv (W.puback 5 1)), .closed,
+      .send W.connect5, .recv W.connackBytes (W.okv (W.connack5 true []))]
+    C08.pendRun W.cfgC W.s0 [] ops = [(1, 4)] ∧ (run W.cfgC W.s0 ops).puback = [] ∧
+    ¬ PendAgree (run W.cfgC W.s0 ops) (C08.pendRun W.cfgC W.s0 [] ops) := by decide
+
+namespace W
+def cfgS : Cfg := { role := .server, pw := 2 }
+/-- a server whose client announced Maximum Packet Size 4 (and to which — in the model only, no real
+    v5.0 CONNACK has 3 bytes — a 3-byte CONNACK was sent), PUBREL id 1 in flight, a protocol error
+    (DISCONNECT sent, `notify_closed` NOT called), then a CONNECT that fails to parse: the refusing
+    CONNACK (5 bytes) does not fit -/
+def opsM : List Op := [.recv connectBytes (okv { connectS5 with props := [(pSEI, 100), (pMPS, 4)] }),
+  .send { connackS false with size := 3 }, .acquire, .send pubrel1,
+  .recv (pubackB 9) (okv (puback 5 9))]
+def sM : St := run cfgS (St.init cfgS 5) opsM
+def gM : List (Nat × Nat) := Pend.pendRun cfgS (St.init cfgS 5) [] opsM
+end W
+
+/-- `recv` — "between connections `closed` was called, or the last peer's Maximum Packet Size admits
+    a 5-byte CONNACK": needed by the PROOF (clause `conn` of `PendInv` breaks: `connecting` with a
+    non-empty ghost); no run was found in which `PendAgree` itself breaks without it -/
+example :
+    let op : Op := .recv W.connectBytes (fun _ _ _ => .error eMalformed)
+    W.gM = [(1, 7)] ∧ C08.PendInv W.sM W.gM ∧ W.sM.status = .disconnected ∧ W.sM.mpsSend = 4 ∧
+    (step W.cfgS W.sM op).s.status = .connecting ∧ C08.pendNext op (step W.cfgS W.sM op).ev W.gM = [(1, 7)] ∧
+    PendAgree (step W.cfgS W.sM op).s (C08.pendNext op (step W.cfgS W.sM op).ev W.gM) ∧
+    ¬ C08.PendInv (step W.cfgS W.sM op).s (C08.pendNext op (step W.cfgS W.sM op).ev W.gM) := by decide
+
+/-- precision, not soundness: with automatic responses the PUBREL is requested BEFORE the PUBREC is
+    delivered, so the fold removes `(1, 7)` again: the ghost is empty although the model awaits the
+    PUBCOMP (the monitor never checks the PUBCOMP of an automatically sent PUBREL) -/
+example :
+    let s := run W.cfgC W.s0 [.setFlag .autoPub true, .send W.connect5,
+      .recv W.connackBytes (W.okv (W.connack5 false [])), .acquire, .send (W.pq 2 1)]
+    let op : Op := .recv (W.pubrecB 1) (W.okv (W.pubrec 5 1 none))
+    (step W.cfgC s op).s.pubcomp = [1] ∧ C08.pendNext op (step W.cfgC s op).ev [(1, 5)] = [] := by decide
+
+
+/-- in the two examples above (`ParseOk` version, `restorePackets` version) the calls after the
+    offending one are within the contract -/
+example : Pend.LegalRun W.cfgC (step W.cfgC W.sB' (.recv (W.pubackB 2) (W.okp (W.puback 4 2)))).s
+    (C08.pendNext (.recv (W.pubackB 2) (W.okp (W.puback 4 2))) (step W.cfgC W.sB' (.recv (W.pubackB 2) (W.okp (W.puback 4 2)))).ev W.gB)
+    [.closed, .send W.connect5, .recv W.connackBytes (W.okv (W.connack5 true []))] :=
+  ⟨trivial, by simp only [Pend.Legal]; decide, ⟨W.parseOk_okv _, by decide⟩, trivial⟩
+example : Pend.LegalRun W.cfgC (step W.cfgC W.s0 (.restorePackets [{ W.pq 1 1 with ver := 4 }])).s []
+    [.send W.connect5, .recv W.connackBytes (W.okv (W.connack5 true [])), .recv (W.pubackB 1) (W.okv (W.puback 5 1)),
+      .closed, .send W.connect5, .recv W.connackBytes (W.okv (W.connack5 true []))] :=
+  ⟨by simp only [Pend.Legal]; decide, ⟨W.parseOk_okv _, by decide⟩, ⟨W.parseOk_okv _, by decide⟩, trivial,
+    by simp only [Pend.Legal]; decide, ⟨W.parseOk_okv _, by decide⟩, trivial⟩
+/-- the run to `W.sM` is within the contract, and the offending `recv` violates only the second clause -/
+example : Pend.LegalRun W.cfgS (St.init W.cfgS 5) [] W.opsM ∧ Pend.ParseOk (fun _ _ _ => (.error eMalformed : Except Nat Pkt)) :=
+  ⟨⟨⟨W.parseOk_okv _, by decide⟩, by simp only [Pend.Legal]; decide, trivial, by simp only [Pend.Legal]; decide,
+    ⟨W.parseOk_okv _, by decide⟩, trivial⟩, W.parseOk_err _⟩
 
 end MqttVerif.Conn
